@@ -36,4 +36,5 @@ def jobs(tier):
         ]
     out += matrix_jobs('C01', 'm1', tier)
     out += matrix_jobs('C01', 'm2', tier)
+    out += matrix_jobs('C01', 'm3', tier)
     return flat(out)
